@@ -362,6 +362,9 @@ def run_waits(ctx, desc):
         # ---- wait_for_bootup: a plain heartbeat first, then the boot-up
         done = {}
 
+        boot = b"\x80" if rnd % 2 else b"\x00"             # the toggle bit is ignored: both bytes announce a boot-up
+        rig.ext.send(0x700 + K, b"\x05")              # (and whatever was received before the wait does not matter)
+
         def waiter():
             nmt.wait_for_bootup(4)
             return "ok"
@@ -370,12 +373,12 @@ def run_waits(ctx, desc):
             n = cond.waits
             rig.ext.send(0x700 + K, b"\x05")
             cond.reentered(n)       # the waiter has seen the plain heartbeat and waits again (or has returned)
-            rig.ext.send(0x700 + K, b"\x00")
+            rig.ext.send(0x700 + K, boot)
             done["ok"] = True
         status, val = waits.run_waiter(waiter, cond, deliver)
         ctx.count("wait_cases")
-        ctx.case(("wait-bootup",))
-        case = {"workload": "waits", "kind": "bootup"}
+        ctx.case(("wait-bootup", boot[0]))
+        case = {"workload": "waits", "kind": "bootup", "boot_up_byte": boot[0]}
         if status in ("hung", "never-waited"):
             ctx.inconc(f"wait_for_bootup: {status}", case)
         elif status != "returned":
